@@ -1,5 +1,6 @@
 //! C07 — the lifted policy is exactly the script's spending condition.
 
+use crate::mdesc::MDesc;
 use crate::checks::c01::pick_kind;
 use crate::gen::{self, Cfg, KeyStyle};
 use crate::glue::{self, Level};
@@ -17,15 +18,15 @@ pub struct C07;
 impl Check for C07 {
     fn id(&self) -> &'static str { "C07" }
     fn rule(&self) -> String {
-        "case = liftable descriptor (all output types, taproot trees with key path) x a family of worlds: every subset of the script's keys and hash preimages when there are <= 6 such atoms (else 32 sampled subsets), combined with nLockTime/nSequence values on both sides of the script's locks; for each world: own evaluation of the Semantic policy returned by lift() vs. ground truth from lazy witness search over the holder alphabet on the independently encoded script (tr: key path signature held or some leaf satisfiable). Non-trivial = policy has >= 2 distinct atoms and both truth values were observed across the worlds; distinct by (descriptor text).".into()
+        "case = liftable descriptor (all output types, taproot trees with key path) x a family of worlds: every subset of the script's keys and hash preimages when there are <= 6 such atoms (else 32 sampled subsets), combined with nLockTime/nSequence values on both sides of the script's locks; lane derived: the policy lifted from decode(encode(M)).substitute_raw_pkh(keys); lane ctor: trees of any base type (B, K, V, W) offered to Descriptor::new_wsh / new_sh / new_sh_wsh / new_bare through from_ast: whatever is accepted is compared like the rest; for each world: own evaluation of the Semantic policy returned by lift() vs. ground truth from lazy witness search over the holder alphabet on the independently encoded script (tr: key path signature held or some leaf satisfiable). Non-trivial = policy has >= 2 distinct atoms and both truth values were observed across the worlds; distinct by (descriptor text).".into()
     }
     fn assumptions(&self) -> Vec<String> {
         vec!["worlds are realisable (one nLockTime, one nSequence, version 2)".into(), "truncated searches are inconclusive".into()]
     }
     fn lanes(&self, tier: Tier) -> Vec<(&'static str, usize, usize)> {
         match tier {
-            Tier::Quick => vec![("lift", 1200, 400), ("tr-mixed", 500, 400), ("consts", 700, 400)],
-            Tier::Thorough => vec![("lift", 50_000, 500), ("tr-mixed", 20_000, 500), ("consts", 30_000, 500)],
+            Tier::Quick => vec![("lift", 1200, 400), ("tr-mixed", 500, 400), ("consts", 700, 400), ("derived", 500, 400), ("ctor", 500, 400)],
+            Tier::Thorough => vec![("lift", 50_000, 500), ("tr-mixed", 20_000, 500), ("consts", 30_000, 500), ("derived", 20_000, 500), ("ctor", 20_000, 500)],
         }
     }
     fn run_case(&self, lane: &str, src: &mut Src, rep: &mut Report) -> Result<(), Failure> {
@@ -36,6 +37,78 @@ impl Check for C07 {
         let mut kind = pick_kind(src);
         let size = src.range(1, 7);
         let mut insane = src.chance(1, 3);
+        if lane == "derived" || lane == "ctor" {
+            use crate::mirror::spec::Ctx;
+            let ctx = *src.pick(&[Ctx::Segwitv0, Ctx::Segwitv0, Ctx::Legacy, Ctx::Bare]);
+            let mut c = Cfg::new(ctx, size);
+            c.key_style = KeyStyle::Hex;
+            c.allow_uncompressed = ctx != Ctx::Segwitv0;
+            c.max_thresh_n = 3;
+            c.or_boost = if src.bool() { 4 } else { 1 };
+            let wi = if lane == "derived" { 0 } else { src.below(5) };
+            let want = [gen::W_B, gen::W_K, gen::W_V, gen::W_W, gen::W_K][wi];
+            let mut st = gen::State::new();
+            let node = gen::gen(src, &c, &mut st, want, size);
+            let shwsh = src.bool();
+            let d = match ctx {
+                Ctx::Segwitv0 if shwsh => MDesc::ShWsh(node.clone()),
+                Ctx::Segwitv0 => MDesc::Wsh(node.clone()),
+                Ctx::Legacy => MDesc::Sh(node.clone()),
+                _ => MDesc::Bare(node.clone()),
+            };
+            let text = d.print(true);
+            if lane == "derived" {
+                // the policy of the value obtained by decoding the script and substituting the
+                // key hashes back, against what the script itself does
+                let got = match ctx {
+                    Ctx::Segwitv0 => derived_lift::<miniscript::Segwitv0>(&node).map(|r| r.map(|p| MPol::from_semantic(&p))),
+                    Ctx::Legacy => derived_lift::<miniscript::Legacy>(&node).map(|r| r.map(|p| MPol::from_semantic(&p))),
+                    _ => derived_lift::<miniscript::BareCtx>(&node).map(|r| r.map(|p| MPol::from_semantic(&p))),
+                };
+                return match got {
+                    None => {
+                        rep.class("rejected-by-library");
+                        Ok(())
+                    }
+                    Some(Err(_)) => {
+                        rep.class("not-liftable");
+                        Ok(())
+                    }
+                    Some(Ok(mp)) => compare(&d, &format!("derived {}", text), mp, src, rep),
+                };
+            }
+            // lane ctor: whatever the programmatic constructors accept (any base type offered)
+            macro_rules! build {
+                ($c:ty, $f:expr) => {
+                    match glue::ms_from_node_ast::<$c>(&node) {
+                        Ok(ms) => $f(ms).map_err(|e: miniscript::Error| e.to_string()),
+                        Err(e) => Err(e),
+                    }
+                };
+            }
+            let lib: Result<miniscript::Descriptor<glue::DK>, String> = match &d {
+                MDesc::ShWsh(_) => build!(miniscript::Segwitv0, miniscript::Descriptor::new_sh_wsh),
+                MDesc::Wsh(_) => build!(miniscript::Segwitv0, miniscript::Descriptor::new_wsh),
+                MDesc::Sh(_) => build!(miniscript::Legacy, miniscript::Descriptor::new_sh),
+                _ => build!(miniscript::BareCtx, miniscript::Descriptor::new_bare),
+            };
+            rep.class(format!("ctor:base={}", ["B", "K", "V", "W", "K"][wi]));
+            let lib = match lib {
+                Ok(l) => l,
+                Err(_) => {
+                    rep.class("rejected-by-library");
+                    return Ok(());
+                }
+            };
+            rep.class("ctor:accepted");
+            return match lib.lift() {
+                Ok(p) => compare(&d, &format!("ctor {}", text), MPol::from_semantic(&p), src, rep),
+                Err(_) => {
+                    rep.class("not-liftable");
+                    Ok(())
+                }
+            };
+        }
         if lane == "tr-mixed" {
             kind = gen::DescKind::TrTree;
             insane = true;
@@ -81,9 +154,31 @@ impl Check for C07 {
                 return Ok(());
             }
         };
-        let mp = MPol::from_semantic(&pol);
+        compare(&d, &text, MPol::from_semantic(&pol), src, rep)
+    }
+}
+
+/// decode(encode(M)).substitute_raw_pkh(keys) (the value the finalizer and psbt users lift).
+fn derived_lift<C: miniscript::ScriptContext>(node: &crate::mirror::ast::Node) -> Option<Result<miniscript::policy::Semantic<C::Key>, ()>>
+where
+    C::Key: std::str::FromStr + miniscript::FromStrKey + miniscript::ToPublicKey,
+{
+    use miniscript::ToPublicKey;
+    let ms = miniscript::Miniscript::<C::Key, C>::from_str_with_validation_params(&crate::mirror::ast::print(node, true), &C::CONSENSUS).ok()?;
+    let dec = miniscript::Miniscript::<C::Key, C>::decode_consensus(&ms.encode()).ok()?;
+    let mut map = std::collections::BTreeMap::new();
+    for k in ms.iter_pk() {
+        map.insert(k.to_pubkeyhash(C::sig_type()), k);
+    }
+    let sub = dec.substitute_raw_pkh(&map);
+    Some(sub.lift().map_err(|_| ()))
+}
+
+fn compare(d: &MDesc, text: &str, mp: MPol, src: &mut Src, rep: &mut Report) -> Result<(), Failure> {
+    {
+        let pol = mp.print();
         rep.desc = format!("{} => {}", text, pol);
-        let us = oracle::units(&d).map_err(|e| Failure { sig: "mirror-encode".into(), msg: e })?;
+        let us = oracle::units(d).map_err(|e| Failure { sig: "mirror-encode".into(), msg: e })?;
         // atoms from the *script* (not from the policy): keys and preimages
         let ctx = d.ctx();
         let mut key_atoms: Vec<[u8; 32]> = Vec::new();
@@ -163,8 +258,8 @@ impl Check for C07 {
                         w.preimages.insert(*p);
                     }
                 }
-                let sym = oracle::symbolic(&d, &us, &w).map_err(|e| Failure { sig: "symbolic".into(), msg: e })?;
-                let (truth, nodes) = oracle::satisfiable(&d, &us, &w, &sym, Budget { max_len: 14, max_nodes: 100_000 });
+                let sym = oracle::symbolic(d, &us, &w).map_err(|e| Failure { sig: "symbolic".into(), msg: e })?;
+                let (truth, nodes) = oracle::satisfiable(d, &us, &w, &sym, Budget { max_len: 14, max_nodes: 100_000 });
                 rep.evals += 1 + nodes as u64 / 1000;
                 count += 1;
                 let pv = poleval::eval_world(&mp, &w);
@@ -174,13 +269,13 @@ impl Check for C07 {
                     }
                     Truth::Yes if !pv => {
                         return fail(
-                            &format!("policy-hides-path/{}", crate::checks::c02::frag_signature(&d)),
+                            &format!("policy-hides-path/{}", crate::checks::c02::frag_signature(d)),
                             format!("world [{}] can spend, but the lifted policy {} evaluates to false", w.describe(), pol),
                         );
                     }
                     Truth::No if pv => {
                         return fail(
-                            &format!("policy-invents-path/{}", crate::checks::c02::frag_signature(&d)),
+                            &format!("policy-invents-path/{}", crate::checks::c02::frag_signature(d)),
                             format!("world [{}] cannot spend, but the lifted policy {} evaluates to true", w.describe(), pol),
                         );
                     }
@@ -194,7 +289,7 @@ impl Check for C07 {
         }
         rep.class(format!("kind={}", d.kind()));
         if poleval::atoms(&mp).len() >= 2 && seen_true && seen_false {
-            rep.nontrivial_by(&text);
+            rep.nontrivial_by(&text.to_string());
         }
         Ok(())
     }
